@@ -838,6 +838,8 @@ class Path:
                 cand = r[1] + '::' + m.group(2)
                 if Mx.mir.has(cand):
                     return self.run_fn(Mx.mir.get(cand), [])
+        if p in ('std::time::UNIX_EPOCH', 'std::time::SystemTime::UNIX_EPOCH'):
+            return Opaque('Instant', None)
         if p in LIBC_CONSTS:
             v, w, sg = LIBC_CONSTS[p]
             return Sc(v, w, sg)
